@@ -9,7 +9,7 @@ import itertools
 
 from menelaus.concept_drift import DDM, EDDM, STEPD
 
-from mc.explorer import System, Violation
+from mc.explorer import System, Violation, dev_split
 from mc.numeric import diff_keys, lockstep
 from mc.observe import stream_obs, fl
 from models.error_based import DDMModel, EDDMModel, STEPDModel
@@ -100,8 +100,50 @@ DEPTH = {
 }
 
 
-def tasks(tier, seed):
+def _long_default(kind, L):
+    """Piecewise-stationary default outcome sequences (1 = error)."""
+    if kind == "burst":  # mostly correct, then a burst of errors, then recovery
+        return [1 if i % 7 == 3 else 0 for i in range(L // 2)] + [1 if i % 3 else 0 for i in range(L // 4)] + [1 if i % 9 == 0 else 0 for i in range(L - L // 2 - L // 4)]
+    # "ramp": the error density rises in steps
     out = []
+    for blk, period in enumerate((11, 6, 3, 2)):
+        out += [1 if i % period == 0 else 0 for i in range(L // 4)]
+    return (out + [1] * L)[:L]
+
+
+# near-default parameters: the long horizon (default warm-ups of 30) is reached by deviation-bounded histories
+LONG_CFGS = {
+    "DDM": [{"n_threshold": 30, "warning_scale": 2, "drift_scale": 3}, {"n_threshold": 20, "warning_scale": 1, "drift_scale": 2}],
+    "EDDM": [{"n_threshold": 30, "warning_thresh": 0.95, "drift_thresh": 0.9}, {"n_threshold": 10, "warning_thresh": 0.95, "drift_thresh": 0.9}],
+    "STEPD": [{"window_size": 30, "alpha_warning": 0.05, "alpha_drift": 0.003}, {"window_size": 12, "alpha_warning": 0.1, "alpha_drift": 0.01}],
+}
+
+
+def _long_tasks(tier):
+    out = []
+    L = 120 if tier == "quick" else 160
+    k = 1 if tier == "quick" else 2
+    for name, cfgs in LONG_CFGS.items():
+        for ci, p in enumerate(cfgs):
+            for kind in ("burst", "ramp"):
+                out += dev_split(
+                    {
+                        "system": name,
+                        "cfg": {"id": "long%d" % ci, "params": p},
+                        "mode": "dev",
+                        "default": _long_default(kind, L),
+                        "menu": [0, 1],
+                        "k": k,
+                        "label": "%s|long%d|%s" % (name, ci, kind),
+                        "cost": 2,
+                        "validate_every": 53,
+                    }
+                )
+    return out
+
+
+def tasks(tier, seed):
+    out = _long_tasks(tier)
     split = 2 if tier == "quick" else 5
     for name, cfgs in (("DDM", DDM_CFGS), ("EDDM", EDDM_CFGS), ("STEPD", STEPD_CFGS)):
         d = DEPTH[tier][name]
@@ -136,6 +178,7 @@ def describe(tier):
         "updates reported warning or drift; histories are distinct by construction (distinct event sequences "
         "or distinct parameter sets)",
         "bounds": {
+            "long_histories": "near-default parameters (warm-ups 10-30): two piecewise-stationary default sequences of length %d with every choice of <= %d flipped positions" % ((120, 1) if tier == "quick" else (160, 2)),
             "alphabet": ["correct", "error"],
             "depth": DEPTH[tier],
             "parameter_sets": {"DDM": len(DDM_CFGS), "EDDM": len(EDDM_CFGS), "STEPD": len(STEPD_CFGS)},
